@@ -530,6 +530,27 @@ func nodeIds(t *tree.Tree) string {
 	for _, e := range t.Edges() {
 		fmt.Fprintf(&b, "%d/%d/%d,", e.NumTipsLeft(), e.NumTipsRight(), e.HashCode())
 	}
+	// the row `gotree stats edges` prints for every branch: length, support, topological depth, depth of the
+	// lower node, depth TO THE ROOT (Node.rootdepth), name of the node below
+	b.WriteByte('|')
+	depthsKnown := true // ToStatsString exits the process when a depth has not been computed
+	for _, x := range t.Nodes() {
+		if _, err := x.Depth(); err != nil {
+			depthsKnown = false
+		}
+	}
+	for _, e := range t.Edges() {
+		if !depthsKnown {
+			b.WriteString("-,")
+			continue
+		}
+		row := ""
+		if p, msg := core.Safe(func() { row = e.ToStatsString(false) }); p {
+			row = "PANIC " + msg
+		}
+		b.WriteString(core.Escape(row))
+		b.WriteByte(',')
+	}
 	return b.String()
 }
 
@@ -539,6 +560,9 @@ func doClone(c *core.Ctx, indexed bool, setIds bool, n *core.N) {
 		for i, x := range t.Nodes() {
 			x.SetId(i + 7)
 		}
+	}
+	if indexed {
+		core.Safe(func() { t.ComputeDepths() }) // depth and depth-to-the-root of every node
 	}
 	var cl *tree.Tree
 	p, msg := core.Safe(func() { cl = t.Clone() })
@@ -709,9 +733,13 @@ func insidCases(c *core.Ctx) {
 			}
 		}
 		rec(n)
-		if len(in) >= 2 {
+		if len(in) >= 2 && g.Chance(0.5) {
 			in[0].Name, in[len(in)-1].Name = "DUP", "DUP"
 			in[0].E.Sup, in[len(in)-1].E.Sup = -1, -1
+		} else if len(in) >= 1 { // an inner label equal to a tip label of the same tree
+			k := in[g.Intn(len(in))]
+			k.Name = k.Leaves()[0]
+			k.E.Sup = -1
 		}
 	}
 	if g.Chance(0.06) { // a tip without a name ("" is also the code's "no existing tip yet")
